@@ -60,4 +60,7 @@ fn main() {
     gen1!(out_dir, "c34_atomic_sum", "atomic_sum", c34::atomic_sum, ["writes", "reads"]);
     gen1!(out_dir, "c34_keyed_counter", "keyed_counter", c34::keyed_counter, ["incs", "gets"]);
     gen1!(out_dir, "c34_plain_sum", "plain_sum", c34::plain_sum, ["writes", "reads"]);
+    gen1!(out_dir, "c34_atomic_lww", "atomic_lww", c34::atomic_lww, ["writes", "reads"]);
+    gen1!(out_dir, "c34_atomic_max", "atomic_max", c34::atomic_max, ["writes", "reads"]);
+    gen1!(out_dir, "c34_keyed_lww", "keyed_lww", c34::keyed_lww, ["incs", "gets"]);
 }
